@@ -213,11 +213,16 @@ pub fn suite_partitions(g: &G, rng: &mut ChaCha8Rng, budget: usize) -> Value {
         let comms: Vec<HashSet<i32>> = fam.iter().map(|s| s.iter().copied().collect()).collect();
         let isp = guarded(|| json!(partitions::is_partition(g, &comms)));
         let mut mods = vec![];
+        let is_p = isp.as_bool().unwrap_or(false);
         for weighted in [false, true] {
             if weighted && !weighted_ok {
                 continue;
             }
             for (rn, rd) in RESOLUTIONS {
+                // families the library itself rejects: one modularity call is enough to see NotAPartition
+                if !is_p && (weighted || (rn, rd) != (1, 1)) {
+                    continue;
+                }
                 let res = if (rn, rd) == (1, 1) && weighted { None } else { Some(rn as f64 / rd as f64) };
                 mods.push(json!({"weighted": weighted, "res": [rn, rd], "ans": guarded(|| match partitions::modularity(g, &comms, weighted, res) {
                     Ok(x) => json!({"e": "", "v": rat(x)}),
@@ -271,4 +276,73 @@ pub fn louvain_calls(g: &G, seeds: i64, full: bool) -> Vec<Value> {
         }
     }
     calls
+}
+
+// ---------------------------------------------------------------------------
+// C18: eigenvector centrality
+
+/// One documented step x -> normalise(x + A^T x) on the stored edges.
+fn eigen_step(g: &G, weighted: bool, names: &[i32], x: &HashMap<i32, f64>) -> HashMap<i32, f64> {
+    let mut y: HashMap<i32, f64> = x.clone();
+    for e in g.get_all_edges() {
+        let w = if !weighted || e.weight.is_nan() { 1.0 } else { e.weight };
+        *y.get_mut(&e.v).unwrap() += x[&e.u] * w;
+        if !g.specs.directed && e.u != e.v {
+            *y.get_mut(&e.u).unwrap() += x[&e.v] * w;
+        }
+    }
+    let mut norm = names.iter().map(|n| y[n] * y[n]).sum::<f64>().sqrt();
+    if norm == 0.0 {
+        norm = 1.0;
+    }
+    names.iter().map(|n| (*n, y[n] / norm)).collect()
+}
+
+pub fn suite_eigen(g: &G) -> Value {
+    use graphrs::algorithms::centrality::eigenvector::eigenvector_centrality;
+    let names: Vec<i32> = { let mut v: Vec<i32> = g.get_all_node_names().into_iter().copied().collect(); v.sort(); v };
+    let n = names.len();
+    let mut groups = vec![];
+    let modes: Vec<bool> = if g.edges_have_weight() && !g.get_all_edges().is_empty() { vec![false, true] } else { vec![false] };
+    for weighted in modes {
+        for (tol, tol_txt) in [(1e-12, "1e-12"), (1e-9, "1e-9"), (1e-6, "1e-6"), (1e-2, "1e-2")] {
+            let mut calls = vec![];
+            let mut prev_ok: Option<HashMap<i32, f64>> = None;
+            for mi in [1u32, 2, 3, 5, 20, 100, 1000] {
+                let r = guarded(|| match eigenvector_centrality(g, weighted, Some(mi), Some(tol)) {
+                    Ok(x) => {
+                        let entries_ok = x.len() == n && names.iter().all(|k| x.contains_key(k));
+                        if !entries_ok {
+                            return json!({"e": "", "entries_ok": false, "nonneg": false, "finite": false, "norm_err_e12": 0, "ratio_milli": 0, "same_as_prev": true});
+                        }
+                        let finite = x.values().all(|v| v.is_finite());
+                        let nonneg = x.values().all(|v| *v >= 0.0);
+                        let norm = x.values().map(|v| v * v).sum::<f64>().sqrt();
+                        let t = eigen_step(g, weighted, &names, &x);
+                        let resid: f64 = names.iter().map(|k| (t[k] - x[k]).abs()).sum();
+                        let ratio = resid / (n as f64 * tol);
+                        json!({"e": "", "entries_ok": true, "nonneg": nonneg, "finite": finite,
+                               "norm_err_e12": ((norm - 1.0).abs() * 1.0e12).round().min(2.0e9) as i64,
+                               "ratio_milli": (ratio * 1000.0).round().min(2.0e9) as i64,
+                               "x": names.iter().map(|k| x[k]).collect::<Vec<f64>>()})
+                    }
+                    Err(e) => json!({"e": kind_name(&e.kind)}),
+                });
+                let mut call = json!({"max_iter": mi, "e": r["e"], "entries_ok": r.get("entries_ok").cloned().unwrap_or(json!(true)),
+                    "nonneg": r.get("nonneg").cloned().unwrap_or(json!(true)), "finite": r.get("finite").cloned().unwrap_or(json!(true)),
+                    "norm_err_e12": r.get("norm_err_e12").cloned().unwrap_or(json!(0)), "ratio_milli": r.get("ratio_milli").cloned().unwrap_or(json!(0)),
+                    "same_as_prev": true});
+                if let Some(xs) = r.get("x").and_then(|v| v.as_array()) {
+                    let cur: HashMap<i32, f64> = names.iter().zip(xs.iter()).map(|(k, v)| (*k, v.as_f64().unwrap_or(f64::NAN))).collect();
+                    if let Some(p) = &prev_ok {
+                        call["same_as_prev"] = json!(names.iter().all(|k| (p[k] - cur[k]).abs() <= 1.0e-12));
+                    }
+                    prev_ok = Some(cur);
+                }
+                calls.push(call);
+            }
+            groups.push(json!({"weighted": weighted, "tol": tol_txt, "calls": calls}));
+        }
+    }
+    json!({"groups": groups})
 }
